@@ -11,6 +11,8 @@ import specs.theorems as theorems
 import specs.types as types
 import specs.decorators as decorators
 import specs.metaclass as metaclass
+import specs.recompute as recompute
+import specs.represent as represent
 from specs.lib import REG
 
 
@@ -33,6 +35,15 @@ U.update(_by_addr(metaclass.META_SPECS))
 META_CONE = ["_collapse_invariants", "_collapse_preconditions", "_collapse_postconditions", "_collapse_snapshots", "_decorate_namespace_function",
              "_dbc_decorate_namespace", "DBCMeta.__new__", "invariant.__call__"]
 META_UNITS = set(META_CONE)
+U.update(_by_addr(recompute.RC_SPECS))
+U.update({"collect." + k: v for k, v in _by_addr(represent.COLLECT_SPECS).items()})
+U.update(_by_addr([represent.REPRESENTABLE, represent.REPR_VALUES, represent.GENERATE_MESSAGE, represent.INSPECT_DECORATOR]))
+RC_CONE = [s.addr.split("::")[1] for s in recompute.RC_SPECS]
+COLLECT_CONE = ["collect." + s.addr.split("::")[1] for s in represent.COLLECT_SPECS]
+EXPR_UNITS = set(RC_CONE + COLLECT_CONE + ["_representable", "repr_values", "generate_message", "inspect_decorator"])
+EXPR_BOUND = ("28 violated lambda conditions (boolean/comparison short-circuits, guards that raise if touched, names shadowing built-ins, star/double-star "
+              "arguments, dict unpacking, attributes, subscripts, slices, f-strings, assignment expressions, comprehensions, all(<generator>) incl. nested, "
+              "displays, 1000-element values, keyword order permutations, repetition); CPython's own evaluation under an instrumenting AST transformer is the reference")
 
 CHECKER_CONE = [
     "_assert_no_invalid_kwargs", "_assert_resolved_kwargs_valid", "select_condition_kwargs", "select_capture_kwargs",
@@ -55,6 +66,14 @@ WRAPPERS6 = ["decorate_with_checker/wrapper[sync]", "decorate_with_checker/wrapp
 
 PROPS = {}
 PROPS_LATE = {
+    "C06": dict(units=RC_CONE + COLLECT_CONE + ["repr_values", "_representable"], replay="expr", hints=["short-circuit", "None", "star", "all"],
+                bounded=[dict(unit="_recompute.py::Visitor.visit_Call / visit_Dict / visit_FormattedValue / comprehension visitors / _trace_all_with_generator / "
+                                   "_translate_all_expression_to_a_module / Visitor.__init__, _represent.py::collect_variable_lookup", script="exprfam.py", bound=EXPR_BOUND)]),
+    "C07": dict(units=RC_CONE + ["generate_message", "inspect_decorator", "_create_violation_error", "repr_values"], replay="expr",
+                hints=["short-circuit", "guard", "unpacking", "star"],
+                bounded=[dict(unit="_recompute.py::Visitor.visit_Call / visit_Dict / comprehension visitors, _represent.py::find_lambda_condition / inspect_lambda_condition",
+                              script="exprfam.py", bound=EXPR_BOUND)]),
+    "C20": dict(units=["repr_values", "generate_message", "_representable"] + COLLECT_CONE, replay="expr", hints=["sorted", "bounded", "large"]),
     "C03": dict(units=INV_CONE + ["invariant.__call__", "invariant.__init__", "DBCMeta.__new__", "_collapse_invariants", "Invariant.__init__"],
                 replay="inv", hints=["member selection", "nested constructor", "check_on"],
                 bounded=[dict(unit="_checkers.py::add_invariant_checks", script="invfam.py",
